@@ -199,6 +199,17 @@ class Mamba2020Pass( UnrollSimPass ):
     SCCs, G_new = kosaraju_scc( G, G_T )
 
     onces = top.get_all_update_once()
+    # A block that calls a blocking method is scheduled through its
+    # greenlet wrapper (see WrapGreenletPass)
+    greenlet_mapping = getattr( top._dag, 'blk_greenlet_mapping', {} )
+    onces = onces | { greenlet_mapping[x] for x in onces if x in greenlet_mapping }
+    # Blocks generated for nets and greenlet wrappers have no host component
+    def describe( y ):
+      kind = '@update_once' if y in onces else '@update'
+      try:
+        return f"{y.__name__} ({kind} in 'top.{repr(top.get_update_block_host_component(y))[2:]}')"
+      except KeyError:
+        return f"{y.__name__} (generated block)"
     # This function compiles a SCC block
     scc_id = 0 # global id across all sccs
     def compile_scc( i ):
@@ -212,10 +223,7 @@ class Mamba2020Pass( UnrollSimPass ):
       for x in scc:
         if x in onces:
           raise UpblkCyclicError("update_once blocks are not allowed to appear in a cycle. \n - " + \
-                          "\n - ".join( [
-                            f"{y.__name__} ({'@update_once' if y in onces else '@update'} " \
-                            f"in 'top.{repr(top.get_update_block_host_component(y))[2:]}')"
-                            for y in scc] ))
+                          "\n - ".join( [ describe(y) for y in scc ] ))
 
       scc_id += 1
       if _DEBUG: print( f"{'='*100}\n SCC{scc_id}\n{'='*100}" )
